@@ -90,6 +90,9 @@ def cmd_run(sid, tier='quick', props=None, extra='', in_repo=False):
             return 2
         rc, o = sh('git -C %s apply %s' % (scratch, os.path.join(d, 'patch.diff')))
         if rc != 0:
+            # the patch was written against an older HEAD (fix: commits landed since): three-way merge from its blob ids
+            rc, o = sh('git -C %s apply --3way %s' % (scratch, os.path.join(d, 'patch.diff')))
+        if rc != 0:
             print('patch does not apply:', o)
             sh('git -C /repo worktree remove --force %s' % scratch)
             return 2
